@@ -54,7 +54,7 @@ func c05RoundRobin(r *vres.Report, maxN int) {
 				cases++
 				var seq []int
 				elig := 0
-				vrt.Run(vrt.Options{}, func(s *vrt.Sched) {
+				vh.RunSeq(r, "C05/sequential", func(s *vrt.Sched) {
 					k := newKit(s, kitOpts{Strategy: "round_robin", N: n, PassiveThr: 1, Window: 1000})
 					if warm >= n {
 						setCursors(k.lb.strategy, []uint64{1<<16 - 3, 1<<31 - 3, 1<<32 - 3}[warm-n])
@@ -135,7 +135,7 @@ func c05WRRFresh(r *vres.Report, maxN, maxW int) {
 			}
 			cases++
 			var seq []int
-			vrt.Run(vrt.Options{}, func(s *vrt.Sched) {
+			vh.RunSeq(r, "C05/sequential", func(s *vrt.Sched) {
 				k := newKit(s, kitOpts{Strategy: "weighted_round_robin", N: n, Weights: ws})
 				for q := 0; q < 3*W; q++ {
 					i, _ := servedIndex(k, "10.0.0.1")
@@ -205,7 +205,7 @@ func c05LeastConn(r *vres.Report, maxN int) {
 				got, status := -1, 0
 				var gauges []int32
 				setupOK := true
-				vrt.Run(vrt.Options{}, func(s *vrt.Sched) {
+				vh.RunSeq(r, "C05/sequential", func(s *vrt.Sched) {
 					k := newKit(s, kitOpts{Strategy: "least_connections", N: n, PassiveThr: 1, Window: 1000})
 					// fill every backend to 2 in-flight requests, then release down to the vector
 					var hs []*held
